@@ -208,9 +208,9 @@ class Model:
             return 'ok', lambda: self.groups.append(k)
         if kd == 'note':
             if k in self.notes:
-                # adding the very note object a second time: not addressed by the statement (duplicates are named for tables, aliases,
-                # enums, groups and references only) -> not explored
-                return 'skip', None
+                # the very note object a second time: the statement does not list it among the rejected operations, so refusing it and
+                # listing it twice are both admissible here; the invariants (back-pointers of contained / removed objects) decide later
+                return 'either', lambda: self.notes.append(k)
             return 'ok', lambda: self.notes.append(k)
         if kd == 'project':
             def f():
